@@ -46,6 +46,29 @@ Theorem C05_one_counter_per_call :
     (dvalid (check_lin valid vend nd) = 1 <-> verdict (check_lin valid vend nd) = true).
 Proof. exact check_lin_counter. Qed.
 
+(* ... hence over EVERY sequence of calls (each with its own validity predicate, end-point validity and segment
+   count): getValidMotionCount + getInvalidMotionCount = number of calls, and the valid counter is exactly the
+   number of calls that answered true *)
+Definition mv_call : Type := ((nat -> bool) * bool * nat)%type.
+Definition mv_res (c : mv_call) : mresult := let '(valid, vend, nd) := c in check_lin valid vend nd.
+Definition mv_counters (calls : list mv_call) (c0 : nat * nat) : nat * nat :=
+  fold_left (fun c call => (fst c + dvalid (mv_res call), snd c + dinvalid (mv_res call))) calls c0.
+Theorem C05_counters_for_every_call_sequence :
+  forall calls v0 i0,
+    fst (mv_counters calls (v0, i0)) + snd (mv_counters calls (v0, i0)) = v0 + i0 + length calls /\
+    fst (mv_counters calls (v0, i0)) = v0 + length (filter (fun c => verdict (mv_res c)) calls).
+Proof.
+  intros calls. induction calls as [|c t IH]; intros v0 i0; unfold mv_counters; cbn [fold_left length filter fst snd].
+  - lia.
+  - fold (mv_counters t (v0 + dvalid (mv_res c), i0 + dinvalid (mv_res c))).
+    destruct (IH (v0 + dvalid (mv_res c)) (i0 + dinvalid (mv_res c))) as [S F]. rewrite S, F.
+    assert (K : dvalid (mv_res c) + dinvalid (mv_res c) = 1 /\ (dvalid (mv_res c) = 1 <-> verdict (mv_res c) = true)).
+    { unfold mv_res. destruct c as [[valid vend] nd]. exact (C05_one_counter_per_call valid vend nd). }
+    destruct K as [K1 K2]. destruct (verdict (mv_res c)) eqn:V; cbn [length].
+    + assert (dvalid (mv_res c) = 1) by (apply K2; reflexivity). lia.
+    + assert (dvalid (mv_res c) <> 1) by (intros D; apply K2 in D; discriminate). lia.
+Qed.
+
 (* explicit state lists *)
 Theorem C05_states_bisection_iff :
   forall valid count, exists r vis, check_states valid count = Some (r, vis) /\
@@ -66,6 +89,7 @@ Print Assumptions C05_forms_agree.
 Print Assumptions C05_lastvalid_spec.
 Print Assumptions C05_success_keeps_lastvalid.
 Print Assumptions C05_one_counter_per_call.
+Print Assumptions C05_counters_for_every_call_sequence.
 Print Assumptions C05_states_bisection_iff.
 Print Assumptions C05_states_first_invalid.
 
